@@ -435,7 +435,9 @@ var (
 	c19PrivPats = []string{`(?im)^\S+>$`, `(?im)^\S+#$`, `(?im)^\S+\(config\)#$`, `^shell\$ $`}
 )
 
-func c19PickList(r *sim.Rng) []string { return append([]string(nil), c19Lists[r.Intn(len(c19Lists))]...) }
+func c19PickList(r *sim.Rng) []string {
+	return append([]string(nil), c19Lists[r.Intn(len(c19Lists))]...)
+}
 
 func c19GenPrivs(r *sim.Rng, allowEmpty bool) []string {
 	n := 1 + r.Intn(3)
